@@ -229,6 +229,7 @@ class ExcelModel:
         get_in = sh.get_nested_dicts
         if isinstance(worksheet, str):
             book = get_in(self.books, context['excel'], BOOK)
+            worksheet = worksheet.replace("''", "'")  # Quoted in references.
             worksheet = book[_get_name(worksheet, book.sheetnames)]
 
         ctx = {'sheet': worksheet.title.upper()}
@@ -539,6 +540,7 @@ class ExcelModel:
                 _decode_path(rng.get('directory', '')), rng.get('filename', '')
             ))
             fpath, sheet_name = _get_name(fpath, books), rng.get('sheet')
+            sheet_name = sheet_name and sheet_name.replace("''", "'")
             if not (fpath and sheet_name):
                 log.info('Node `%s` cannot be saved '
                          '(missing filename and/or sheet_name).' % k)
